@@ -661,7 +661,6 @@ func c40mixed(r *vrun.Run, kind string, only *c40rtCase) {
 	}
 }
 
-
 // SaveMulti: three different mixed entities in one call (every ordered pair of the six values of the struct field and
 // of the string field), then each is fetched and compared; and the same batch again as an update (version 2).
 func c40multi(r *vrun.Run, kind string, only *c40rtCase) {
